@@ -28,14 +28,16 @@ Theorem C04_no_bounce_stale : forall t_sweep t_load R c ts,
 Proof. exact stale_stays_stale. Qed.
 Print Assumptions C04_no_bounce_stale.
 
-(* a deletion marker the sweeper may have removed (timestamp below the cutoff of a pass started at
+(* a deletion the sweeper may have removed (timestamp below the cutoff of a pass started at
    t_sweep) is NOT re-created on an instance that has no entry for the key (old = []), by a load
    started at any t_load >= t_sweep, under every iterator configuration whose DeletedCutoff is
-   what deletedCutoff(t_load) returns with the sweeper enabled *)
+   what deletedCutoff(t_load) returns with the sweeper enabled. "Deletion" is what the snapshot's
+   format version says it is: the deleted flag, or — format version 1 — an empty value (this second
+   case needed the repair 03ae323: the stale check looked at the flag only) *)
 Theorem C04_no_bounce : forall cfg e t_sweep t_load R c,
   0 <= R <= max_int64 -> 0 <= t_sweep -> t_sweep <= t_load -> t_load <= max_int64 ->
   c_cutoff cfg = deleted_cutoff true t_load R c ->
-  is_deleted (masked_flags e) = true ->
+  (is_deleted (masked_flags e) || (Nat.eqb (length (k_val e)) 0 && (c_fmt cfg <? 2)%N)) = true ->
   (k_ts e < sweep_cutoff t_sweep R)%N ->
   native_merge cfg [] e = Ok [].
 Proof. exact no_bounce. Qed.
@@ -97,3 +99,11 @@ Example C04_no_bounce_regress_40000 :
   (m < ts_from_ns (add_neg t R_40000))%N /\ ~ (m < ts_from_ns (add_neg t (rmc_prefix R_40000 ex_hour)))%N /\
   (m < load_cutoff t R_40000 ex_hour)%N.
 Proof. vm_compute. repeat split; try reflexivity; intros H; discriminate H. Qed.
+
+(* regression for the repair 03ae323: a format-version-1 deletion (empty value, no flag) older than the load
+   cutoff is not re-created on an instance without an entry; a younger one is stored as a marker *)
+Example C04_no_bounce_v1 :
+  native_merge (mkCfg 1 0 7 false 1000) [] (mkKV [107%N] [] 999 0) = Ok [] /\
+  native_merge (mkCfg 1 0 7 false 1000) [] (mkKV [107%N] [] 1000 0)
+    = Ok (be64 1000 ++ be64 7 ++ [0;1;0;0;0;0;0;0]%N).
+Proof. split; vm_compute; reflexivity. Qed.
